@@ -64,6 +64,28 @@ CHECKS = {
                      "definitions for all (n,d). Complete for the stated space.",
                 note="NV instruction semantics (rot, crot) as in the NetQASM paper; float tolerance 1e-9",
                 ref="3/C07"),
+    "C11": dict(cat="exploration", tech="bounded-exhaustive enumeration of EPRSocket API calls and scripted link-layer responses through the real SDK-to-executor pipeline with a recording network stack",
+                text="For every public EPRSocket create/recv entry point and the parameter lattice (number 1..3; all TimeUnit, EprMeasBasis "
+                     "and RandomBasis members; each rotation component 0..31 and the {0,1,31}^3 cubes; sockets {0,1,3}; two remote nodes; "
+                     "min-fidelity loop variants; generic and NV hardware) the LinkLayerCreate received by the stack, or the receive "
+                     "registration made by the executor, equals an independently written argument-to-field map with documented defaults; "
+                     "enum-typed fields are enum members and request_to_qlink_1_0 accepts K and M requests with matching fields. With "
+                     "responses carrying all-distinct field values, every Qubit.entanglement_info field, the qubit-to-pair association, "
+                     "every EprKeepResult field and every EprMeasureResult field reads the same-named field of its own pair's response.",
+                note="delivery schedule fixed to 'next pair when a wait blocks' (interleavings are C12); measurement_outcome compared only "
+                     "where no Bell post-processing applies (C10); the R-to-qlink-1.0 conversion refusal is counted, not judged",
+                ref="3/C11"),
+    "C14": dict(cat="model_checking", tech="explicit-state BFS over completed-SDK-operation histories on the builder's register economy until the state graph closes; nesting families executed on the real controller",
+                text="Breadth-first search over histories of 35 kinds of completed SDK operations plus flush (forced at the latest after 15 "
+                     "operations) on one connection, hashing the builder's register economy; every transition compiles and serialises "
+                     "the real subroutine. Every completed operation must return the pool to the state it found (no active register, "
+                     "no measurement register beyond live RegFutures, no open context); the state graph closes (136 states), which "
+                     "gives the unbounded statement: sequences of any length keep compiling. Loops nested 1..14 deep with each "
+                     "operation kind innermost are executed on the real controller and compared with direct evaluation, so a "
+                     "temporary overwriting a live enclosing loop counter is seen as a wrong sum.",
+                note="16 register measurements without a flush legitimately exhaust the M bank; fresh-name counters are not part of the "
+                     "state; nesting beyond depth 12 may legitimately raise the documented out-of-registers error",
+                ref="3/C14"),
     "C15": dict(cat="exploration", tech="bounded-exhaustive enumeration of message serialise/deserialise round trips",
                 text="Every host-to-controller and controller-to-host message type is serialised and deserialised by the real code "
                      "for every value of each field's boundary lattice (complete for 8-bit fields) against two backgrounds, every "
